@@ -59,6 +59,7 @@ from __future__ import annotations
 
 import itertools
 import math
+import re
 
 import numpy as np
 
@@ -599,11 +600,13 @@ def run_case(case, tally):
     obs = {"violations": [], "formulations": []}
     points = case.get("points", [0, 1, 2])
 
-    def viol(inv, fv, func, msg, with_idf=False):
+    def viol(inv, fv, func, msg, with_idf=False, error=None):
         prov = ref.producer[func].i + 1 if func in ref.producer else None
         sig = {"invariant": inv, **fv_sig(fv), "order_class": oc, "variant": case["variant"],
                "function": {"o": "objective", "q": "objective", "g": "constraint"}.get(func[0], "consistency") if func else None,
                "provider": f"D{prov}" if prov else None}
+        if error is not None:  # exception class + message with the digits masked: identifies the raising site
+            sig["error"] = f"{type(error).__name__}: " + re.sub(r"[0-9]+", "N", str(error))[:70]
         keep = ([["IDF", False], ["IDF", True]] if with_idf else []) + [fv]
         tally.violation(sig, {**case, "formulations": keep}, f"{inv} [{fv}] order={order} function={func}: {msg}\n  case={case}")
         obs["violations"].append({"invariant": inv, "formulation": fv, "function": func, "message": msg})
@@ -627,7 +630,7 @@ def run_case(case, tally):
         try:
             form, discs = make_formulation(ref, fv, case, order, obj, cons)
         except Exception as e:
-            viol("formulation-construction-raises", fv, obj, f"{type(e).__name__}: {str(e)[:300]}")
+            viol("formulation-construction-raises", fv, obj, f"{type(e).__name__}: {str(e)[:300]}", error=e)
             tally.case((_key(case), tuple(map(str, fv))), nontrivial=True, outcome=f"{label}:raises")
             continue
         prob = form.optimization_problem
@@ -686,7 +689,7 @@ def run_case(case, tally):
             else:
                 status = _check_mdf(ref, fv, form, prob, names, funcs, refs, viol, mdf_reports)
         except Exception as e:
-            viol("evaluation-raises", fv, obj, f"{type(e).__name__}: {str(e)[:300]}")
+            viol("evaluation-raises", fv, obj, f"{type(e).__name__}: {str(e)[:300]}", error=e)
             status = "raises"
         obs["formulations"].append({"formulation": fv, "design_space": names, "status": status})
         tally.case((_key(case), tuple(map(str, fv))), nontrivial=nontrivial, outcome=f"{label}:{status}",
